@@ -196,6 +196,16 @@ fn main() {
         for s in NEAR_MISSES {
             cx.parse_case(s, true, "near-miss");
         }
+        // around the nesting limit of the lexer (if it has one)
+        for n in [100usize, 126, 127, 128, 129, 130, 200] {
+            cx.parse_case(&format!("package a:b; let x = {}y{};", "(".repeat(n), ")".repeat(n)), true, "nesting");
+            cx.parse_case(&format!("package a:b; type t = {}u8{};", "list<".repeat(n), ">".repeat(n)), true, "nesting");
+            cx.parse_case(&format!("package a:b; type t = {}u8{};", "result<".repeat(n), ">".repeat(n)), true, "nesting");
+            cx.parse_case(&format!("package a:b; type t = {}u8{};", "tuple<".repeat(n), ">".repeat(n)), true, "nesting");
+            cx.parse_case(&format!("package a:b; let x = {}y{};", "new a:b { z: ".repeat(n), " }".repeat(n)), true, "nesting");
+            cx.parse_case(&format!("package a:b; let x = {}y;", "(".repeat(n)), true, "nesting");
+            cx.parse_case(&format!("package a:b; interface i {{ f: func(a: {}u8{}); }}", "option<".repeat(n), ">".repeat(n)), true, "nesting");
+        }
         let repo = std::env::var("WACV_REPO").unwrap_or_else(|_| "/repo".into());
         for p in wac_files(&repo) {
             if let Ok(src) = std::fs::read_to_string(&p) {
